@@ -212,13 +212,31 @@ def run_lazy(sizes, steps, how='datastream', late=False):
         return {'title': dp.descriptor.get('title'), 'names': [d['name'] for d in dp.descriptor['resources']]}
 
 
-def run_stepwise(sizes, mk_steps, late=False):
-    """one step at a time, each on the fully materialised (deep-copied) output of the previous one"""
+def run_stepwise(sizes, mk_steps, late=False, kinds=None):
+    """one step at a time, each on the fully materialised (deep-copied) output of the previous one; user row and rows
+    callables are applied directly (what it means for such a link to take effect: every row is replaced by what the
+    row function returns, or kept as the function left it when it returns nothing; a rows function maps each resource's
+    row sequence), built-in steps and package functions run alone in a one-step Flow"""
     with quiet():
         ds = Flow(*[list(map(dict, r)) for r in mk_sources(sizes, late)]).datastream()
         dp = copy.deepcopy(ds.dp.descriptor)
         rows = [[copy.deepcopy(dict(r)) for r in res] for res in ds.res_iter]
-        for step in mk_steps():
+        for si, step in enumerate(mk_steps()):
+            kind = (kinds or [None] * (si + 1))[si]
+            if kind in ('row_fn', 'row_ret'):
+                new = []
+                for rs in rows:
+                    cur = []
+                    for r in rs:
+                        r = copy.deepcopy(r)
+                        ret = step(r)
+                        cur.append(r if ret is None else ret)
+                    new.append(cur)
+                rows = new
+                continue
+            if kind == 'rows_fn':
+                rows = [[copy.deepcopy(dict(r)) for r in step(iter(copy.deepcopy(rs)))] for rs in rows]
+                continue
             src = DF.DataStream(Package(copy.deepcopy(dp)),
                                 [DF.ResourceWrapper(res, iter(copy.deepcopy(rs))) for res, rs in zip(Package(copy.deepcopy(dp)).resources, rows)])
             ds = Flow(step).datastream(src)
@@ -270,7 +288,7 @@ def run_impl(case):
     except Exception as e:
         return {'lazy_error': error_text(e)}
     try:
-        out['stepwise'] = run_stepwise(sizes, mk, late=late)
+        out['stepwise'] = run_stepwise(sizes, mk, late=late, kinds=[st['t'] for st in case['steps']])
     except Exception as e:
         out['stepwise_error'] = error_text(e)
     try:
